@@ -7,6 +7,7 @@ import GoSquare.Properties.C07
 import GoSquare.Properties.C08
 import GoSquare.Properties.C09
 import GoSquare.Properties.C10
+import GoSquare.Properties.C11
 import GoSquare.Properties.C12
 import GoSquare.Properties.C13
 import GoSquare.Properties.C14
@@ -67,6 +68,14 @@ import GoSquare.Properties.C20
 #print axioms GoSquare.C10.accessors_on_padding
 #print axioms GoSquare.C09.writer_eq_spec
 #print axioms GoSquare.C09.seqLen_and_minimal
+#print axioms GoSquare.C11.parse_subrange
+#print axioms GoSquare.C11.parse_subrange_sublist
+#print axioms GoSquare.C11.parse_subrange_of_export
+#print axioms GoSquare.C11.sub_eq_within
+#print axioms GoSquare.extract_sub
+#print axioms GoSquare.parseRawData_truncated
+#print axioms GoSquare.parseDelimiter_cut
+#print axioms GoSquare.C09.writer_eq_spec
 #print axioms GoSquare.C12.splitter_range_exact
 #print axioms GoSquare.C12.sharesNeeded_eq_shareOf_last
 #print axioms GoSquare.C12.shareOf_closed_form
